@@ -1065,7 +1065,7 @@ func (x *Exec) specCall(env *SpecEnv, c ECall) SpecVal {
 		name := c.Args[1].(EStr).V
 		clo, ok := env.st.clos[v.T.S]
 		if !ok {
-			unsupported("closurevar: %s is not a closure built on this path", c.Args[0].exprString())
+			return SpecVal{T: x.d.Fresh("closurevar!unknown", SInt)}
 		}
 		body := clo.Fn
 		for k, fv := range body.FreeVars {
@@ -1075,7 +1075,7 @@ func (x *Exec) specCall(env *SpecEnv, c ECall) SpecVal {
 				return x.specIdent(cenv, name)
 			}
 		}
-		unsupported("closurevar: no captured variable %s", name)
+		return SpecVal{T: x.d.Fresh("closurevar!unknown", SInt)}
 	case "recvready":
 		// a blocking receive / select case on this channel was enabled on this path
 		ch := x.specTerm(env, c.Args[0])
